@@ -476,6 +476,27 @@ def runChecked (s : St) : List Tid → Option St
   | [] => some s
   | t :: r => if enabled s t then runChecked (step s t {}) r else none
 
+/-- labels of the transition system -/
+inductive Lab where
+  | t (t : Tid) (c : Choice := {})
+  | e (ns : List Name)
+
+/-- run a labelled schedule, refusing steps that are not enabled -/
+def runLabs (s : St) : List Lab → Option St
+  | [] => some s
+  | .t t c :: r => if enabled s t then runLabs (step s t c) r else none
+  | .e ns :: r => runLabs (evict s ns) r
+
+/-- two callbacks of different transactions run on the same object and one of them writes -/
+def St.mutexViolatedB (s : St) : Bool :=
+  s.tids.any fun t1 => s.tids.any fun t2 =>
+    (s.thr t1).pc == .inF && (s.thr t2).pc == .inF && (s.thr t1).use == (s.thr t2).use &&
+    (s.thr t1).tx != (s.thr t2).tx && !((s.thr t1).acc.ro && (s.thr t2).acc.ro)
+
+/-- every thread has finished but some object is still write-locked -/
+def St.leakB (s : St) : Bool :=
+  s.tids.all (fun t => !s.unfinished t) && (List.range s.nObj).any fun o => (s.objs o).writer.isSome
+
 /-- an initial state from a list of worker programs `(transaction, accesses)` -/
 def mkInit (progs : List (TxId × List Access)) (commitFail : List Bool) (maxSize : Int) (db : Bool) (v : Variant) : St :=
   { n := progs.length, nTx := commitFail.length, maxSize := maxSize, dbLock := db, v := v,
